@@ -614,6 +614,15 @@ class Evaluator:
                 v = self.agg_field(b, name)
                 if v is not None:
                     return v
+            if b[0] == 'res' and name == 'first':
+                info = st.results.get(b[1])
+                # the pair a local vector's emplace_back(k, v) / push_back(pair) just constructed: its key is k
+                if info and info[1] in ('emplace_back', 'push_back') and info[3] == 'vector' and isinstance(info[0], tuple) and info[0][:1] == ('var',):
+                    a = list(info[2])
+                    if len(a) == 1 and isinstance(a[0], tuple) and a[0] and a[0][0] == 'pair':
+                        a = [a[0][1], a[0][2]]
+                    if len(a) == 2 and ('fld', b, 'first') not in st.store:
+                        return a[0]
             if b[0] == 'deref' and isinstance(b[1], tuple) and b[1][0] == 'res':
                 info = st.results.get(b[1][1])
                 # *emplace_result of a map-like container: the stored (key, value) pair
@@ -977,6 +986,14 @@ class Evaluator:
             return
         a0 = args[0]
         t0 = typeclass(qt(a0))
+        if name == 'operator()' and len(args) == 3 and self.strip(a0).get('kind') == 'DeclRefExpr' and t0 == 'other':
+            # a comparator kept in a local: `const auto& less = m.key_comp(); ... less(a, b)`
+            vals = list(self.rv(a0, st.clone()))
+            if len(vals) == 1 and isinstance(vals[0][1], tuple) and len(vals[0][1]) > 2 and vals[0][1][0] == 'q' and vals[0][1][1] == 'key_comp':
+                cmpobj = vals[0][1]
+                for st3, ts in self.eval_args(args[1:], st):
+                    yield st3, ('keyless', cmpobj[2], ts[0], ts[1])
+                return
         if name == 'operator()' and len(args) == 3:
             inner0 = self.strip(a0)
             if inner0.get('kind') == 'CXXMemberCallExpr' and self.strip(inner0['inner'][0]).get('name') == 'key_comp':
@@ -1628,7 +1645,10 @@ class Evaluator:
                     tq = qt(n['inner'][0]['inner'][0])
                 except Exception:
                     pass
-                if len(ts) == 1 and root_of(recv)[0] not in ('local',):
+                rr = root_of(recv)
+                in_local_result = (rr[0] == 'res' and isinstance(st.results.get(rr[1], (None,))[0], tuple)
+                                   and st.results[rr[1]][0][:1] == ('var',))      # an element of the local output container
+                if len(ts) == 1 and rr[0] not in ('local',) and not in_local_result:
                     self.write(st, recv, ts[0], n)          # same representation as `o = v` on a stored optional
                 elif len(ts) == 1:
                     self.write(st, recv, ('ctor', tq or 'std::optional<?>', (ts[0],)), n)
